@@ -373,6 +373,36 @@ void ezc3d::c3d::unlockGroup(const std::string &groupName)
     _parameters->group_nonConst(groupName).unlock();
 }
 
+// The updaters rewrite the derived POINT and ANALOG parameters once the data set has been modified.
+// Make sure beforehand that they will find what they are going to read (a file written by other software
+// may lack them), so that a call which cannot be completed is refused before anything is touched
+static void checkUpdatable(const ezc3d::ParametersNS::Parameters &parameters, bool hasFrames, bool pointsChange, bool analogsChange)
+{
+    const ezc3d::ParametersNS::GroupNS::Group& point(parameters.group("POINT"));
+    const ezc3d::ParametersNS::GroupNS::Group& analog(parameters.group("ANALOG"));
+    if (point.parameter("FRAMES").valuesAsInt().size() == 0 || point.parameter("USED").valuesAsInt().size() == 0
+            || analog.parameter("USED").valuesAsInt().size() == 0)
+        throw std::invalid_argument("POINT:FRAMES, POINT:USED and ANALOG:USED must hold a value");
+    if (pointsChange){
+        point.parameterIdx("DESCRIPTIONS");
+        point.parameterIdx("UNITS");
+        if (hasFrames)
+            point.parameterIdx("LABELS");
+        else
+            point.parameter("LABELS").valuesAsString();
+    }
+    if (analogsChange){
+        analog.parameterIdx("DESCRIPTIONS");
+        if (hasFrames)
+            analog.parameterIdx("LABELS");
+        else
+            analog.parameter("LABELS").valuesAsString();
+        analog.parameter("SCALE").valuesAsFloat();
+        analog.parameter("OFFSET").valuesAsInt();
+        analog.parameter("UNITS").valuesAsString();
+    }
+}
+
 void ezc3d::c3d::frame(const ezc3d::DataNS::Frame &f, size_t idx)
 {
     VERIF_SCOPE(J::obj().set("op", "AddFrame").set("idx", verif::sz(idx)).set("frame", verif::frame(f)));
@@ -399,13 +429,15 @@ void ezc3d::c3d::frame(const ezc3d::DataNS::Frame &f, size_t idx)
 
     size_t nAnalogs(static_cast<size_t>(parameters().group("ANALOG").parameter("USED").valuesAsInt()[0]));
     size_t subSize(f.analogs().nbSubframes());
+    size_t nChannel(0);
     if (subSize != 0){
-        size_t nChannel(f.analogs().subframe(0).nbChannels());
+        nChannel = f.analogs().subframe(0).nbChannels();
         size_t nAnalogByFrames(header().nbAnalogByFrame());
         if (!(nAnalogs==0 && nAnalogByFrames==0) && nChannel != nAnalogs )
             throw std::runtime_error("Number of analogs in ANALOG:USED parameter must equal "
                                      "the number of analogs sent in the frame");
     }
+    checkUpdatable(parameters(), true, f.points().nbPoints() != nPoints, nChannel != nAnalogs);
 
     // Replace the jth frame
     _data->frame(f, idx);
@@ -429,6 +461,7 @@ void ezc3d::c3d::point(const std::string &name){
         // Store the label as a point would be named (without trailing spaces)
         std::string trimmedName(name);
         ezc3d::removeTrailingSpaces(trimmedName);
+        checkUpdatable(parameters(), false, true, false);
         updateParameters({trimmedName});
     }
 }
@@ -453,6 +486,7 @@ void ezc3d::c3d::point(const std::vector<ezc3d::DataNS::Frame>& frames)
     for (size_t idx = 0; idx < frames[0].points().nbPoints(); ++idx)
         for (size_t f=0; f<data().nbFrames(); ++f)
             frames[f].points().point(idx); // throws if the point is missing in that frame
+    checkUpdatable(parameters(), true, true, false);
 
     for (size_t idx = 0; idx < frames[0].points().nbPoints(); ++idx)
         for (size_t f=0; f<data().nbFrames(); ++f)
@@ -480,6 +514,7 @@ void ezc3d::c3d::analog(const std::string &name)
         // Store the label as a channel would be named (without trailing spaces)
         std::string trimmedName(name);
         ezc3d::removeTrailingSpaces(trimmedName);
+        checkUpdatable(parameters(), false, false, true);
         updateParameters({}, {trimmedName});
     }
 }
@@ -511,6 +546,7 @@ void ezc3d::c3d::analog(const std::vector<ezc3d::DataNS::Frame> &frames)
             for (size_t idx = 0; idx < nbChannels; ++idx)
                 frames[f].analogs().subframe(sf).channel(idx); // throws if the channel is missing in that frame
         }
+    checkUpdatable(parameters(), true, false, true);
 
     for (size_t idx = 0; idx < nbChannels; ++idx)
         for (size_t f=0; f < data().nbFrames(); ++f)
